@@ -25,6 +25,9 @@ SPEC = dict(
           "nothing; statistic counters equal the observed calls. exh: every request sequence of the given length for "
           "N <= maxn x 3 deterministic chunkings x 2 policies (all shorter sequences are prefixes and are judged after "
           "every request). rand: histories of 1000 requests (1 in 8 shorter) under 5 request-size profiles. "
+          "wfault (extension: a sink that fails): histories of 4..43 append(0..N+2)/flush requests on a WriteBuffer whose all-or-nothing "
+          "writeData() throws at random calls, the caller repeats the failed request; after every request sink + buffered() == "
+          "appended, after the closing flush the sink holds exactly the appended bytes. "
           "distinct_nontrivial = distinct (class, N, policy, chunking [+ chunk seed], request sequence) in which at least "
           "one request moves a byte - by construction in exh, by hash in rand."),
     assumptions=["the source never returns 0 bytes when asked for >= 1 byte and never throws; the sink always accepts all bytes",
@@ -46,6 +49,8 @@ SPEC = dict(
                             "read.refill_after_compaction", "read.refill_behind_data", "read.refused_null", "write.refused_null", "write.passthrough_checked",
                             "write.append_forced_flush", "write.flush_wrote", "write.flush_empty"],
              timeout=7200),
+        dict(name="wfault", flavour="asan", cases={"quick": 40000, "thorough": 2000000},
+             require_stats=["wfault.sink_failures", "wfault.histories_with_a_failing_sink", "wfault.requests"], timeout=3600),
     ],
 )
 
